@@ -1599,13 +1599,114 @@ def rule_fixedcache(ctx):
     return res.finish(3)
 
 
+def rule_nufeasible(ctx):
+    """nu-classification hands each class a total weight of nu * l / 2 with at most one per sample; when the smaller class
+    has fewer samples than that, the excess is dropped, the starting point violates y'alpha = 0 and SMO keeps that sum:
+    the published coefficients are infeasible.  `fit_nu` returns a model, not a Result, so the refusal has to happen
+    before it is called: every call of the classification `fit_nu` must be preceded, in its own function, by a `?` on a
+    test that relates the very `nu` it is handed to counts taken from the very targets it is handed, with an Err exit."""
+    from .taint import parent_map
+    res = RuleResult("R-C13-nufeasible", "every call of the nu-classification set-up is preceded by a test, with an error exit, of nu against counts of the targets it is called with")
+    F = ctx.facts()
+    fns = [f for f in F.all_fns() if f["d"]["krate"] == "linfa_svm" and f.get("body") is not None]
+    target = [f for f in fns if f["d"]["name"] == "fit_nu" and fn_file(f).endswith("classification.rs")]
+    if not target:
+        res.missing_anchor("linfa_svm::classification::fit_nu")
+        return res.finish(2)
+    tdef = target[0]["def"]
+    # which parameters of fit_nu are the targets and nu
+    names = [next((b["name"] for b in pat_bindings(p_)), None) for p_ in target[0]["params"]]
+    if "nu" not in names or "targets" not in names:
+        res.missing_anchor("parameters `targets` and `nu` of classification::fit_nu")
+        return res.finish(2)
+    i_nu, i_t = names.index("nu"), names.index("targets")
+    by_def = {f["def"]: f for f in fns}
+
+    def root(e):
+        e = peel_refs(e)
+        while e.get("k") in ("MethodCall", "Field", "Index", "Unary", "Cast"):
+            e = peel_refs(e.get("recv") or e.get("e"))
+        return e.get("local") if e.get("k") == "Path" else None
+
+    def tests_feasibility(g, nu_idx, t_idx):
+        """g compares something derived from its nu parameter with something derived from a count over its targets
+        parameter, and has an Err exit"""
+        ps = [next((b["local"] for b in pat_bindings(p_)), None) for p_ in g["params"]]
+        if nu_idx >= len(ps) or t_idx >= len(ps):
+            return False
+        nu_l, t_l = ps[nu_idx], ps[t_idx]
+        # locals derived from the targets through a count / len
+        counts = set()
+        grew = True
+        while grew:
+            grew = False
+            for y in walk(g["body"]):
+                if y.get("k") == "LetStmt" and y.get("init") is not None and y["pat"].get("k") == "Bind" and y["pat"]["local"] not in counts:
+                    ini = y["init"]
+                    direct = any(z.get("k") == "MethodCall" and z["name"] in ("count", "len", "sum") and any(w.get("k") == "Path" and w.get("local") == t_l for w in walk(z["recv"])) for z in walk(ini))
+                    derived = any(z.get("k") == "Path" and z.get("local") in counts for z in walk(ini))
+                    if direct or derived:
+                        counts.add(y["pat"]["local"])
+                        grew = True
+        has_err = any(z.get("k") == "Call" and (g["crate"].dfn(strip(z["f"]).get("def")) or {}).get("name") == "Err" for z in walk(g["body"]) if strip(z.get("f") or {}).get("k") == "Path")
+        for y in walk(g["body"]):
+            if y.get("k") == "Binary" and y["op"] in ("<", ">", "<=", ">="):
+                sides = [set(z.get("local") for z in walk(y[s_]) if z.get("k") == "Path" and "local" in z) for s_ in ("l", "r")]
+                cnt = [bool(sd & counts) or any(z.get("k") == "MethodCall" and z["name"] in ("count", "len") and any(w.get("k") == "Path" and w.get("local") == t_l for w in walk(z["recv"])) for z in walk(y[s_])) for sd, s_ in zip(sides, ("l", "r"))]
+                nus = [nu_l in sd for sd in sides]
+                if has_err and ((nus[0] and cnt[1]) or (nus[1] and cnt[0])):
+                    return True
+        return False
+
+    n = 0
+    seen = set()
+    for fn in fns:
+        calls = [y for y in walk(fn["body"]) if y.get("k") == "Call" and strip(y["f"]).get("k") == "Path" and tdef in (strip(y["f"]).get("def"), strip(y["f"]).get("inst"))]
+        if not calls:
+            continue
+        pm = parent_map(fn["body"])
+        key = fn_key(fn)
+        for call in calls:
+            n += 1
+            inst = "%s : call of classification::fit_nu" % key
+            res.instance(inst)
+            nu_arg, t_arg = root(call["args"][i_nu]), root(call["args"][i_t])
+            ok = False
+            child, a = call, pm.get(id(call))
+            while a is not None and not ok:
+                if a.get("k") == "Block":
+                    for st in a.get("stmts", []):
+                        if st is child or any(z is child for z in walk(st)):
+                            break
+                        for y in walk(st):
+                            if y.get("k") == "Match" and y.get("src") == "TryDesugar":
+                                for z in walk(y["scrut"]):
+                                    if z.get("k") == "Call" and strip(z["f"]).get("k") == "Path":
+                                        g = by_def.get(strip(z["f"]).get("inst")) or by_def.get(strip(z["f"]).get("def"))
+                                        if g is None:
+                                            continue
+                                        roots = [root(a_) for a_ in z["args"]]
+                                        if nu_arg in roots and t_arg in roots and nu_arg is not None and t_arg is not None:
+                                            if tests_feasibility(g, roots.index(nu_arg), roots.index(t_arg)):
+                                                ok = True
+                child, a = a, pm.get(id(a))
+            if ok:
+                res.ok()
+            elif key not in seen:
+                seen.add(key)
+                res.violate("%s : nu-feasibility-not-tested" % key, "classification::fit_nu is called without a preceding `?` on a test of this nu against counts of these targets: when nu * l / 2 exceeds the size of the smaller class the excess weight is dropped, the starting point has y'alpha != 0 and the published coefficients violate the equality constraint of the dual", fn_loc(fn, call.get("ln")))
+    if n < 2:
+        res.missing_anchor("calls of classification::fit_nu (found %d)" % n)
+    return res.finish(2)
+
+
 def rules(tier):
     from . import carry, c04
     from . import precision
     from . import inplace, blockmean
     return [blockmean.make_tile_rule("R-C13-tiles", lambda f: f["d"]["krate"] in ("linfa_svm", "linfa_kernel"), "linfa-svm and linfa-kernel (kernel matrix construction)"),
             inplace.make_rule("R-C13-overwrite", lambda f: f["d"]["krate"] == "linfa_svm", 2, "the support vector machines"),
-            rule_precombine, rule_permute, rule_fixedcache, rule_nufraction, rule_nusetup, rule_reselect, rule_islinear, rule_decision, rule_swap, rule_bound, rule_space, rule_sv, rule_sib, rule_snapshot, rule_rho, rule_rescale, rule_memorder, rule_extent, rule_kernel,
+            rule_precombine, rule_permute, rule_fixedcache, rule_nufeasible, rule_nufraction, rule_nusetup, rule_reselect, rule_islinear, rule_decision, rule_swap, rule_bound, rule_space, rule_sv, rule_sib, rule_snapshot, rule_rho, rule_rescale, rule_memorder, rule_extent, rule_kernel,
             carry.make_clone_rule("R-C13-clone", {"linfa_svm", "linfa_kernel"}, 6), carry.make_setter_rule("R-C13-override", {"linfa_svm"}, 6), c04.make_carry_rule("R-C13-carry", {"SvmParams"}, 6),
             precision.make_rule("R-C13-precision", lambda f: f["d"]["krate"] in ("linfa_svm", "linfa_kernel"), 100, "linfa-svm and linfa-kernel"),
             carry.make_accessor_rule("R-C13-accessor", {"linfa_svm", "linfa_kernel"}, 3), carry.make_ctor_rule("R-C13-ctor", {"linfa_svm", "linfa_kernel"}, 3)]
